@@ -130,9 +130,9 @@ class OriginsEngine(OriginsEngineBase):
     ) -> np.ndarray:
         V_crit = LinksEngine.Veq(rho_crit, v_free, rho_crit, a)
         v_lim = np.minimum(v_ctrl, v_first)
-        q_speed = (
-            lanes * v_lim * rho_crit * np.power(-a * np.log(v_lim / v_free), 1 / a)
-        )
+        ratio = v_lim / v_free
+        ratio = np.maximum(0.05, np.minimum(1.0, ratio))  # limit ratio to avoid nans
+        q_speed = lanes * v_lim * rho_crit * np.power(-a * np.log(ratio), 1 / a)
         q_cap = lanes * V_crit * rho_crit
         q_lim = q_speed if v_lim < V_crit else q_cap
         return np.minimum(d + w / T, q_lim)
